@@ -13,7 +13,9 @@ EXTENDS TraceLib, FiniteSets
 VARIABLES ucur, uhist, hasIS, isnap, joined, cview
 
 Resets == { i \in 1..NTrace : Trace[i].ev = "reset" }
+\* the keys named at reset plus every key the upstream ever writes (the driver's marker keys are fresh per settle point)
 TKeys == UNION { SeqToSet(Trace[i].keys) : i \in Resets }
+         \cup UNION { { Trace[i].kvs[j].k : j \in DOMAIN Trace[i].kvs } : i \in { n \in 1..NTrace : Trace[n].ev = "up" } }
 TClients == UNION { SeqToSet(Trace[i].clients) : i \in Resets }
 
 D == INSTANCE P_Typha WITH Keys <- TKeys, Clients <- TClients
